@@ -1804,12 +1804,18 @@ def _get_function_opts(func, ignore=None):
 
 
 def _array_or_tuple_to_list(conf):
-    """Convert an input array or tuple to list (for yaml_safe dict creation."""
+    """Convert an input array or tuple to list (for yaml_safe dict creation.
+
+    A converted copy is returned, the input (and any nested dict) is not changed.
+    """
+    out = {}
     for key, val in conf.items():
         if isinstance(val, np.ndarray):
-            conf[key] = val.tolist()
+            out[key] = val.tolist()
         elif isinstance(val, dict):
-            conf[key] = _array_or_tuple_to_list(conf[key])
+            out[key] = _array_or_tuple_to_list(val)
         elif isinstance(val, tuple):
-            conf[key] = list(val)
-    return conf
+            out[key] = list(val)
+        else:
+            out[key] = val
+    return out
